@@ -761,7 +761,16 @@ class Builder:
     def raise_to(self, fr: Frontier, exc: Tuple, frame: Optional[Frame]) -> None:
         """Route an exception of kind exc=('exc'|'cancel', class-ref|None) outwards."""
         label = exc[0]
-        fr = [(n, label) for n, _ in fr]
+        kept: Frontier = []
+        for n, lab in fr:
+            if lab in ('T', 'F'):
+                # the frontier ends in a branch arm (the end of a finally body that re-raises): keep the branch outcome
+                src_ev = self.g.evs[n]
+                mid = self.new('nop', src_ev.node, src_ev.inst, what='branch-arm')
+                self.g.add_edge(n, mid, lab)
+                n = mid
+            kept.append((n, label))
+        fr = kept
         while fr and frame is not None:
             if isinstance(frame, TryFrame):
                 for h in frame.stmt.handlers:
@@ -1286,6 +1295,8 @@ def find_path(g: Graph, src: int, dsts, avoid=(), labels=None) -> Optional[List[
 
 
 def describe_path(g: Graph, path: List[int], limit: int = 14) -> List[str]:
+    import os
+    limit = int(os.environ.get('SA_PATH_LIMIT', limit))        # debugging aid: the whole path
     out = []
     interesting = [i for i in path if g.evs[i].kind in ('call', 'await', 'branch', 'return', 'raise', 'handler',
                                                          'fin', 'store', 'exit', 'rexit', 'entry', 'loop')]
